@@ -5,6 +5,10 @@ V = os.path.dirname(os.path.dirname(os.path.abspath(__file__)))
 props = [json.loads(l) for l in open(os.path.join(V, 'properties.jsonl'))]
 
 CHECKS = {
+ 'C18': dict(level='fault_enumeration', design='3/C18',
+   text='Every output operation of a run fails once: (i) the guarded hook counter fails the k-th operation for k = 1..n (unlink, mkdir, create, chmod, write, readdir, rmdir, reject create/write, backup mkdir/create/write, .pc mkdir, applied-patches open/write) in the sequential driver and, pinned by a round-robin baton script, in the parallel driver; (ii) independently strace -e inject fails the j-th call of every output system call of the sequential run (ENOSPC; thorough also EIO, EACCES). Oracle: non-zero exit, no crash, message names the file, no patch recorded; recorded hook traces must not contain an append after the fault. The Push.tla model states the same as an invariant under a FailOp action.',
+   note='Trusted: hooks sit on every output path (cross-checked by the hook-free strace injector), strace fault injection.',
+   technique='fault enumeration on the binary with a hook fault counter and strace injection; TLA+ FailOp action in the driver model'),
  'C15': dict(level='model_checking', design='3/C15',
    text='Stratified sample of TLC-enumerated scenarios (Outcome.tla universe incl. -R, rename, mode change, rollback after failure); every workspace gets a cp -al twin and bystander files; after the push (1-3 threads, both loaders) the twin must be identical in bytes, mode, inode and mtime, every changed file must be a fresh inode and un-named files untouched; a share of the runs is traced with strace and the open/unlink events replayed into a model of the directory (an existing working-tree name may never be opened for writing).',
    note='Trusted: TLC, snapshotter, strace decoding (unfinished/resumed lines are merged). Inode freshness is only judged against the surviving hard link.',
